@@ -87,6 +87,12 @@ Theorem C08_chain_model_meets_oracle : forall chain cs, chain_dom chain cs = tru
 Proof. exact run_model_meets_oracle. Qed.
 Print Assumptions C08_chain_model_meets_oracle.
 
+(* several languages through DFXP / SAMI: every language keeps its name and place and gets its own closed form *)
+Theorem C08_chain_model_set_exact : forall chain cs, set_dom chain cs = true ->
+  run_model_set chain cs = Ok (expected_set chain cs).
+Proof. exact run_model_set_exact. Qed.
+Print Assumptions C08_chain_model_set_exact.
+
 (* string level, MicroDVD: the document printed by the writer model (frames, text lines joined by '|', the
    strip / replace clean-up loops), read back by the reader model: both frames floored, text lines unchanged *)
 Theorem C08_mdvd_roundtrip_string : forall cs,
